@@ -361,6 +361,52 @@ def font_from_rules(passes, ipos, ncols, gattr=None):
     return data, model
 
 
+def gen_jump_font(r, fixed=None, ret=None, ln=None, ml=None):
+    """a substitution pass whose rule moves the cursor around the high-water mark and returns a long jump: the pattern is
+    `b c c` (columns 1 2 2) or a variation, the action a short sequence of next / insert / delete that ends on or near the
+    slot behind which the mark lies, and the value returned (the new position relative to the final cursor) is a large
+    negative or positive number; texts are long runs `a…a b c…c`.  These are the programs in which the rule loop's count
+    depends on the book-keeping of `highpassed`."""
+    ncols = 3
+    ln = ln or r.randrange(2, 5)
+    pat = [1] + [2] * (ln - 1)
+    kinds = []
+    act = []
+    fixed = r.random() < 0.5 if fixed is None else fixed
+    if fixed:
+        # walk to the last slot of the match, delete it (the cursor steps back), jump
+        for _ in range(ln - 1):
+            act.append(OP['NEXT'])
+        act.append(OP['DELETE'])
+    else:
+        depth = 0
+        del0 = False
+        for _ in range(r.randrange(1, 7)):
+            k = r.choice(["next", "next", "delete", "insert"])
+            if k == "next" and depth < ln - 1:
+                act.append(OP['NEXT']); depth += 1
+            elif k == "delete" and (depth > 0 or not del0):
+                act.append(OP['DELETE'])          # (the loader refuses a second delete at the first slot of the match)
+                del0 = del0 or depth == 0
+            elif k == "insert":
+                act += [OP['INSERT'], OP['PUT_GLYPH'], 0, r.randrange(NCLASSES)]
+    if ret is None:
+        ret = r.choice([-120, -100, -60, -7, -3, -2, -1, 0, 1, 2, 5, 100]) if not fixed else r.choice([-120, -100, -60, -20])
+    act += [OP['PUSH_BYTE'], ret & 255, OP['POP_RET']]
+    ml = ml or r.choice([1, 1, 2, 5])
+    data, model = font_from_rules([(0, ml, [(ln, 0, b"", bytes(act), pat)])], 1, ncols)
+    return data, {"model": model, "kind": "jump", "ret": ret, "fixed": fixed}
+
+
+def gen_jump_text(r, long=False):
+    y = r.choice([0, 3, 30, 125, 130])
+    z = r.choice([2, 5, 40, 200, 500] + ([1500] if long else []))
+    cps = [0x61] * y + [0x62] + [0x63] * z
+    if r.random() < 0.3:
+        cps += [0x61] * r.randrange(0, 10) + [0x62] + [0x63] * r.randrange(0, 30)
+    return cps
+
+
 def gen_reattach_font(r):
     """positioning passes that attach, re-attach and copy slots (`put_copy` from references that `assoc` turned into
     temporary copies): the histories in which stale parent pointers of copies matter.  `put_copy` dies on a slot that is
